@@ -56,6 +56,8 @@ def make_cases(seed, n, names, T):
             mode = 1 if rng.below(3) == 0 else 0
             regs = [[gen_state_word(rng, mode) for _ in range(W)] for _ in range(3)]
             M = [gen_coeff(rng, is8, mode) for _ in range(mlen)]
+            if mlen % 12 == 0 and rng.below(5) == 0:
+                C13.directed_sum(rng, regs, M, mlen, 2)
             if name == "dot_avx512":
                 line = "%s [ 0 0 ] %s [ %s ]" % (name, " ".join(hx(v) for r in regs for v in r), " ".join(hx(v) for v in M))
             else:
